@@ -142,6 +142,11 @@ type read struct {
 	Key      string
 	IDs      []string
 	Count    int
+	Value    string              // metadata filter: Key = Value
+	RowVols  []map[string][2]string // volumes of the returned rows (asset -> input, output), nil when null
+	RowEff   []map[string][2]string
+	RowNull  []bool                 // the row's metadata is NULL
+	RowMeta  []map[string]string // metadata of the returned rows, in the order of IDs
 }
 
 func toTime(us int64) ledger.Time {
@@ -726,6 +731,160 @@ func (x *runner) listings(l string, st *ledgerstore.Store) {
 		for _, a := range cur.Data {
 			rd.IDs = append(rd.IDs, a.Address)
 		}
+		x.reads = append(x.reads, rd)
+	}
+	// the accounts listing as of every point in time: unfiltered (with volumes), by address pattern, by metadata
+	for i := range x.h.Pits {
+		p := &x.h.Pits[i]
+		t := toTime(*p)
+		type variant struct {
+			kind string
+			qb   query.Builder
+			pat  string
+			kv   [2]string
+		}
+		vs := []variant{{kind: "list-accounts-pit"}}
+		if len(pats) > 0 {
+			vs = append(vs, variant{kind: "list-accounts-pit-by-address", qb: query.Match("address", pats[0]), pat: pats[0]})
+		}
+		mf := x.h.MetaFilters
+		if len(mf) > 0 {
+			vs = append(vs, variant{kind: "list-accounts-pit-by-metadata", qb: query.Match("metadata["+mf[0][0]+"]", mf[0][1]), kv: mf[0]})
+		}
+		for _, v := range vs {
+			fo := ledgerstore.PITFilterWithVolumes{PITFilter: ledgerstore.PITFilter{PIT: &t}, ExpandVolumes: v.kind == "list-accounts-pit", ExpandEffectiveVolumes: v.kind == "list-accounts-pit"}
+			opts := ledgerstore.NewPaginatedQueryOptions(fo).WithPageSize(1000)
+			if v.qb != nil {
+				opts = opts.WithQueryBuilder(v.qb)
+			}
+			q := ledgerstore.NewGetAccountsQuery(opts)
+			cur, err := st.GetAccountsWithVolumes(x.ctx, q)
+			if err != nil {
+				x.fault = fmt.Sprintf("GetAccountsWithVolumes(%s, pit): %v", v.kind, err)
+				return
+			}
+			rd := read{Kind: v.kind, Ledger: l, Pit: p, Pattern: v.pat, Key: v.kv[0], Value: v.kv[1]}
+			var cells []string
+			for _, a := range cur.Data {
+				rd.IDs = append(rd.IDs, a.Address)
+				m := map[string]string{}
+				for k, vv := range a.Metadata {
+					m[k] = vv
+				}
+				rd.RowMeta = append(rd.RowMeta, m)
+				rd.RowNull = append(rd.RowNull, a.Metadata == nil)
+				conv := func(vb ledger.VolumesByAssets) map[string][2]string {
+					if vb == nil {
+						return nil
+					}
+					o := map[string][2]string{}
+					for s, vol := range vb {
+						if vol == nil || vol.Input == nil || vol.Output == nil {
+							o[s] = [2]string{"null", "null"}
+							continue
+						}
+						o[s] = [2]string{vol.Input.String(), vol.Output.String()}
+					}
+					return o
+				}
+				rd.RowVols = append(rd.RowVols, conv(a.Volumes))
+				rd.RowEff = append(rd.RowEff, conv(a.EffectiveVolumes))
+				mc := cnull
+				if a.Metadata != nil {
+					mc = x.nm.cmeta(a.Metadata)
+				}
+				cells = append(cells, cl(cn(x.nm.account[a.Address]), mc))
+			}
+			n, err := st.CountAccounts(x.ctx, q)
+			if err != nil {
+				x.fault = fmt.Sprintf("CountAccounts(%s, pit): %v", v.kind, err)
+				return
+			}
+			rd.Count = n
+			if v.kind == "list-accounts-pit" {
+				rd.Q = fmt.Sprintf("QAccountsPit %d%%N %s", x.nm.ledger[l], zc(*p))
+				rd.Cell = cls(cells)
+			}
+			x.reads = append(x.reads, rd)
+		}
+	}
+	// $match metadata[k] = v: transactions now and as of every point in time of the history; accounts now
+	filters := x.h.MetaFilters
+	if len(filters) == 0 {
+		seen := map[[2]string]bool{}
+		add := func(m map[string]string) {
+			for _, k := range sortedKeys(m) {
+				if f := [2]string{k, m[k]}; !seen[f] && len(filters) < 4 {
+					seen[f] = true
+					filters = append(filters, f)
+				}
+			}
+		}
+		for _, e := range x.h.Logs {
+			if e.Tx != nil {
+				add(e.Tx.Meta)
+			}
+			add(e.Meta)
+		}
+	}
+	var pits []*int64
+	pits = append(pits, nil)
+	for i := range x.h.Pits {
+		pits = append(pits, &x.h.Pits[i])
+	}
+	for _, f := range filters {
+		for _, p := range pits {
+			fo := ledgerstore.PITFilterWithVolumes{}
+			if p != nil {
+				t := toTime(*p)
+				fo.PIT = &t
+			}
+			opts := ledgerstore.NewPaginatedQueryOptions(fo).WithPageSize(1000).WithQueryBuilder(query.Match("metadata["+f[0]+"]", f[1]))
+			q := ledgerstore.NewGetTransactionsQuery(opts)
+			cur, err := st.GetTransactions(x.ctx, q)
+			if err != nil {
+				x.fault = fmt.Sprintf("GetTransactions(metadata[%s] = %q, pit %v): %v", f[0], f[1], p != nil, err)
+				return
+			}
+			rd := read{Kind: "list-transactions-by-metadata", Ledger: l, Key: f[0], Value: f[1], Pit: p}
+			for _, t := range cur.Data {
+				rd.IDs = append(rd.IDs, t.ID.String())
+				m := map[string]string{}
+				for k, v := range t.Metadata {
+					m[k] = v
+				}
+				rd.RowMeta = append(rd.RowMeta, m)
+			}
+			n, err := st.CountTransactions(x.ctx, q)
+			if err != nil {
+				x.fault = fmt.Sprintf("CountTransactions(metadata[%s] = %q, pit %v): %v", f[0], f[1], p != nil, err)
+				return
+			}
+			rd.Count = n
+			x.reads = append(x.reads, rd)
+		}
+		opts := ledgerstore.NewPaginatedQueryOptions(ledgerstore.PITFilterWithVolumes{}).WithPageSize(1000).WithQueryBuilder(query.Match("metadata["+f[0]+"]", f[1]))
+		q := ledgerstore.NewGetAccountsQuery(opts)
+		cur, err := st.GetAccountsWithVolumes(x.ctx, q)
+		if err != nil {
+			x.fault = fmt.Sprintf("GetAccountsWithVolumes(metadata[%s] = %q): %v", f[0], f[1], err)
+			return
+		}
+		rd := read{Kind: "list-accounts-by-metadata", Ledger: l, Key: f[0], Value: f[1]}
+		for _, a := range cur.Data {
+			rd.IDs = append(rd.IDs, a.Address)
+			m := map[string]string{}
+			for k, v := range a.Metadata {
+				m[k] = v
+			}
+			rd.RowMeta = append(rd.RowMeta, m)
+		}
+		n, err := st.CountAccounts(x.ctx, q)
+		if err != nil {
+			x.fault = fmt.Sprintf("CountAccounts(metadata[%s] = %q): %v", f[0], f[1], err)
+			return
+		}
+		rd.Count = n
 		x.reads = append(x.reads, rd)
 	}
 }
